@@ -58,6 +58,38 @@ func repoCallTree(p *an.Prog, roots ...*ssa.Function) []*ssa.Function {
 	return out
 }
 
+// impureIn reports a source of nondeterminism (randomness, clock, environment, reassigned package variable) read by any
+// of the functions, and the number of call sites examined.
+func impureIn(p *an.Prog, tree []*ssa.Function) (string, int) {
+	bad := ""
+	ncalls := 0
+	for _, f := range tree {
+		for _, g := range an.WithClosures(f) {
+			for _, b := range g.Blocks {
+				for _, ins := range b.Instrs {
+					if call, ok := ins.(*ssa.Call); ok {
+						ncalls++
+						if w := impureCall(call); w != "" {
+							bad = w + " in " + an.FuncName(g) + " at " + p.Pos(call.Pos())
+						}
+					}
+				}
+				for _, ins := range b.Instrs {
+					// reads of mutable package variables
+					if u, ok := ins.(*ssa.UnOp); ok {
+						if g, ok := u.X.(*ssa.Global); ok && g.Pkg != nil && strings.HasPrefix(g.Pkg.Pkg.Path(), an.Mod) && !strings.HasPrefix(g.Name(), "Err") {
+							if okInit, where := globalWrittenOnlyInInit(p, g); !okInit {
+								bad = "reads package variable " + g.Name() + " which is reassigned in " + where
+							}
+						}
+					}
+				}
+			}
+		}
+	}
+	return bad, ncalls
+}
+
 func c13(c *an.Check) {
 	privateScalarProvenance(c)
 	privateKeyRawIsCopy(c)
@@ -92,31 +124,8 @@ func c13(c *an.Check) {
 	}
 	// determinism: no randomness / clock anywhere in the in-repo call tree
 	tree := repoCallTree(p, dk, de)
-	bad := ""
-	ncalls := 0
+	bad, ncalls := impureIn(p, tree)
 	for _, f := range tree {
-		for _, g := range an.WithClosures(f) {
-			for _, b := range g.Blocks {
-				for _, ins := range b.Instrs {
-					if call, ok := ins.(*ssa.Call); ok {
-						ncalls++
-						if w := impureCall(call); w != "" {
-							bad = w + " in " + an.FuncName(g) + " at " + p.Pos(call.Pos())
-						}
-					}
-				}
-				for _, ins := range b.Instrs {
-					// reads of mutable package variables
-					if u, ok := ins.(*ssa.UnOp); ok {
-						if g, ok := u.X.(*ssa.Global); ok && g.Pkg != nil && strings.HasPrefix(g.Pkg.Pkg.Path(), an.Mod) && !strings.HasPrefix(g.Name(), "Err") {
-							if okInit, where := globalWrittenOnlyInInit(p, g); !okInit {
-								bad = "reads package variable " + g.Name() + " which is reassigned in " + where
-							}
-						}
-					}
-				}
-			}
-		}
 		c.Touch(f)
 	}
 	c.Sites(ncalls)
